@@ -895,6 +895,9 @@ class Engine:
                         return r
                 if obj.cls.issubclass(EXC['BaseException']) and name == '__cause__':
                     return None
+                if getattr(obj, 'is_shape', False) and obj.cls.builtin:
+                    raise Unsupported("contract out of date: the code uses .%s on an object the contract's pre-state models as %s "
+                                      "(representation changed?)" % (name, obj.cls.name))
                 if getattr(obj, 'is_shape', False) and name in self.init_assigned(obj.cls):
                     raise Unsupported("contract out of date: the pre-state shape given for %s lacks attribute %r, which "
                                       "its __init__ always sets" % (obj.cls.name, name))
